@@ -1,7 +1,7 @@
 \* EXPECTED VIOLATION NothingDropped: as coded a full write channel discards a waiting transaction
 CONSTANTS NTx = 3 Kind <- KindS Sender <- SenderS Nonce <- NonceS NAccs = 1 Accs <- MCAccs StartEmpty = FALSE
   Max = 2 NPushers = 1 NConsumers = 0 Batch = 2
-  MaxPush = 4 MaxBlocks = 0 MaxFail = 0 MaxCrash = 0 MaxClose = 0 MaxPops = 3 MaxExecErr = 0
+  MaxPush = 4 MaxBlocks = 0 MaxFail = 0 MaxCrash = 0 MaxClose = 0 MaxPops = 3 MaxExecErr = 0 MaxFatal = 0
   DedupFix = TRUE OverflowFix = FALSE Mutant = "none"
 INIT Init
 NEXT Next
